@@ -165,7 +165,7 @@ def join(a, b):
 
 
 _FRAC_ORDER = {'W': 0, 'C': 1, 'N': 2}
-_FDIFF_ORDER = {'MI': 0, 'W1': 1, 'W2': 2, 'CUM': 3, 'ANY': 4}
+_FDIFF_ORDER = {'MI': 0, 'CW': 1, 'W1': 2, 'W2': 3, 'CUM': 4, 'ANY': 5}
 
 
 def geo_join(a, b):
